@@ -87,6 +87,24 @@ var (
 	pendingClose sync.WaitGroup
 )
 
+// Slow outcomes (the no-progress verdict costs the client's retry pauses, the
+// watchdog two minutes) are not repeated for thousands of images: after a few
+// of them in one process the step is skipped (and counted). By then the run's
+// verdict is already a violation / inconclusive.
+var (
+	resumeSlowMu       sync.Mutex
+	resumeSlowFailures int
+)
+
+const resumeSlowFailuresMax = 6
+
+func resumeSlow(add int) int {
+	resumeSlowMu.Lock()
+	defer resumeSlowMu.Unlock()
+	resumeSlowFailures += add
+	return resumeSlowFailures
+}
+
 // WaitPending blocks until every background stop-and-close has finished.
 func WaitPending() { pendingClose.Wait() }
 
@@ -193,10 +211,11 @@ func (s *resumeSession) cfCheckpt(req *wire.MsgGetCFCheckpt) *wire.MsgCFCheckpt 
 	return resp
 }
 
-// noProgressRounds: that many getcfheaders answered in full with the filter tip
-// still where it was at the restart is "does not resume" (each failed round
-// costs the client its own retry pause, so this is only ever reached by a
-// client that cannot commit honest answers).
+// noProgressRounds: that many all-peers getcfheaders rounds (answered in full
+// by the honest peer, or asking for something no honest peer has) with the
+// filter tip still where it was at the restart is "does not resume" (each
+// failed round costs the client its own retry pause, so this is only ever
+// reached by a client that cannot ask for, or cannot commit, what it lacks).
 const noProgressRounds = 4
 
 // queryAll is the scripted all-peers query: the one peer answers on the
@@ -211,8 +230,8 @@ func (s *resumeSession) queryAll(msg wire.Message,
 	switch m := msg.(type) {
 	case *wire.MsgGetCFHeaders:
 		s.mu.Lock()
+		done := s.nCFH
 		s.nCFH++
-		done := s.answered
 		s.mu.Unlock()
 		if done >= noProgressRounds {
 			if _, ft, err := s.f.ChainTip(); err == nil && int(ft) <= s.m0 {
@@ -358,6 +377,10 @@ func ResumeFilterSync(p *chaincfg.Params, b headerfs.BlockHeaderStore, f headerf
 		st.count("resume_skipped_no_honest_answer_for_arbitrary_stored_headers", 1)
 		return gotF, nil, "", ""
 	}
+	if resumeSlow(0) >= resumeSlowFailuresMax {
+		st.count("resume_skipped_after_repeated_slow_failures", 1)
+		return gotF, nil, "", ""
+	}
 	sp, err := standInPeer(p, b)
 	if err != nil {
 		return gotF, nil, bmInconclusive, "harness: cannot make a peer: " + err.Error()
@@ -450,6 +473,7 @@ func ResumeFilterSync(p *chaincfg.Params, b headerfs.BlockHeaderStore, f headerf
 	select {
 	case ev = <-s.events:
 	case <-wd.C:
+		resumeSlow(1)
 		s.mu.Lock()
 		q := fmt.Sprintf("%d getcfheaders, %d getcfcheckpt, %d batches", s.nCFH, s.nCkpt, s.nBatches)
 		s.mu.Unlock()
@@ -488,9 +512,10 @@ func ResumeFilterSync(p *chaincfg.Params, b headerfs.BlockHeaderStore, f headerf
 	case int(bt) != n:
 		return gotF, stop, "resume/filter-sync-moves-block-tip", fmt.Sprintf("no block was announced to the restarted block manager, yet the block tip moved from %d to %d", n, bt)
 	case ev == "noprogress":
+		resumeSlow(1)
 		return gotF, stop, "resume/filter-sync-makes-no-progress/lag:" + lag, fmt.Sprintf(
-			"restart on block tip %d, filter tip %d with one honest peer and no new block: %d getcfheaders were answered in full from the chain's ground truth and the filter tip is still %d%s",
-			n, m, answered, ft, banned)
+			"restart on block tip %d, filter tip %d with one honest peer and no new block: the client made %d getcfheaders rounds (%d answered in full from the chain's ground truth, the others asked for nothing an honest peer has) and the filter tip is still %d%s",
+			n, m, nCFH, answered, ft, banned)
 	case int(ft) != n:
 		return gotF, stop, "resume/filter-sync-does-not-resume/" + asked + "/lag:" + lag, fmt.Sprintf(
 			"restart on block tip %d, filter tip %d with block headers current, one honest peer connected and no new block: the filter-header handler went to sleep until new block headers arrive with the filter tip at %d (queries it made: %d getcfheaders, %d getcfcheckpt, %d batch requests)%s; only a block that is not coming wakes it",
